@@ -1,3 +1,4 @@
+import PoorProofs.Props.C04
 import PoorProofs.Lemmas.Wsgi
 import PoorProofs.Props.C14
 import PoorProofs.Props.C15
@@ -381,5 +382,23 @@ def C01_full : Prop :=
       ∃ t e, run app p post ctor route = (t, .answered e))
 
 theorem C01 : C01_full := ⟨C01_wellformed, C01_silent_reason⟩
+
+/-! ### non-vacuity: a concrete application and failing program meet the hypotheses -/
+
+/-- the demo application is a standard one and the demo program obeys `GoodProg`; the request is answered -/
+example : Std C04.demoApp := ⟨rfl, rfl⟩
+
+example : GoodProg C04.demoProg := by
+  intro s
+  cases s with
+  | before i => trivial
+  | endpoint => trivial
+  | status c => by_cases h : c = 404 <;> simp [C04.demoProg, h, GoodVal]
+  | exch i => by_cases h : i = 0 <;> simp [C04.demoProg, h, GoodVal, GoodExc]
+
+example : ∃ t e, run C04.demoApp C04.demoProg (fun _ => .same) none .hit = (t, .answered e) ∧ e.status = 200 := by
+  refine ⟨_, _, rfl, ?_⟩
+  decide
+
 
 end Poor.Props.C01
